@@ -14,7 +14,7 @@
   monitors `hook_error` / `no_rebalance` decide concrete histories.
 -/
 import AllianceProofs
-import Generated.Arith
+import Generated.Tables
 namespace Alliance
 namespace C08
 open Dec
